@@ -13,13 +13,14 @@ from engine import tlc
 from engine.core import shard_map, watchdog_map
 from engine.tlc import MachineryError
 
-KINDS = ["busy", "printer", "swallower", "blocked", "finisher", "catcher", "importer"]
+KINDS = ["busy", "printer", "swallower", "blocked", "finisher", "catcher", "importer", "unwinder"]
 # the later execution threaded as well (a blocked student is released, and dies, during it)
 TN_CFGS = ["catcher_tn", "blocked_tn", "busy_tn", "printer_tn", "importer_tn"]
 PROPERTY_INVS = {"ExcIsTimeout", "ExcStable", "OneRuntimeFb", "StacksEmpty", "NoCrash", "NextRunClean", "NextExcNone"}
 DESIGN_MUTANTS = [("MUT_Timeout_inject_exception.cfg", "an injected exception class derived from Exception (a catcher swallows it)"),
                   ("MUT_Timeout_shared_field.cfg", "the student thread's exception handed back through one sandbox field"),
-                  ("MUT_Timeout_nested_import_thread.cfg", "a helper thread of its own for an import inside a time-limited execution")]
+                  ("MUT_Timeout_nested_import_thread.cfg", "a helper thread of its own for an import inside a time-limited execution"),
+                  ("MUT_Timeout_thread_exc_wins.cfg", "an error recorded by the unwinding student thread preferred over the timeout")]
 
 
 def run(prop, tier, seed, ctx):
@@ -95,7 +96,7 @@ def run(prop, tier, seed, ctx):
     n = 3 if tier == "quick" else 25
     cases = []
     for kind in ["busy", "printer", "blocked", "swallower", "swallower_loud", "finisher", "raiser_late", "catcher",
-                 "catcher_loud", "blocked_tn", "busy_tn", "printer_tn", "catcher_tn", "importer", "importer_tn"]:
+                 "catcher_loud", "blocked_tn", "busy_tn", "printer_tn", "catcher_tn", "importer", "importer_tn", "unwinder", "unwinder_tn"]:
         for i in range(n):
             allowed = [0.05, 0.08, 0.12][(i + seed) % 3]
             fin = [20000, 300000, 1500000, 4000000][(i + seed) % 4]
